@@ -93,11 +93,25 @@ static void dom_close1(U64Vec *s) {
     }
     uv_sortuniq(s);
 }
-// FINE(r): level 0 = whole family closed under one neighbour step; higher levels are thinned
+// POLAR(r,k): the cells containing the two poles and everything within k geometric steps of them
+static void dom_polar(int r, int k, U64Vec *out) {
+    for (int pole = 0; pole < 2; pole++) {
+        LatLng g = {pole ? -M_PI / 2 : M_PI / 2, 0.0};
+        uint64_t h = 0;
+        if (latLngToCell(&g, r, &h)) continue;
+        U64Vec s = {0};
+        uv_push(&s, h);
+        for (int step = 0; step < k; step++) dom_close1(&s);
+        for (size_t i = 0; i < s.n; i++) uv_push(out, s.v[i]);
+        uv_free(&s);
+    }
+}
+// FINE(r): level 0 = whole family closed under one neighbour step; higher levels are thinned; all levels include POLAR(r,3)
 //   level 1: RUN over pentagon base cells + every 5th, run lengths in steps of 2
 //   level 2: RUN over pentagon base cells + every 17th, run lengths in steps of 4, not closed
 static void dom_fine_raw(int r, int level, U64Vec *out) {
     dom_pent(r, level >= 2 ? 1 : 2, out);
+    dom_polar(r, 3, out);
     if (level == 0)
         dom_run(r, 1, 1, out);
     else if (level == 1)
@@ -108,6 +122,7 @@ static void dom_fine_raw(int r, int level, U64Vec *out) {
 }
 static void dom_fine(int r, int level, U64Vec *out) {
     dom_pent(r, level >= 2 ? 1 : 2, out);
+    dom_polar(r, 3, out);
     if (level == 0)
         dom_run(r, 1, 1, out);
     else if (level == 1)
